@@ -196,6 +196,9 @@ class Workspace(object):
         os.mkdir(self.project)
         os.mkdir(self.dbdir)
         self.aliases = list(databases)
+        # database alias that `evolve` targets and that snapshots / row
+        # loading look at unless told otherwise
+        self.main_alias = 'default'
         self.installed_apps = []
         self.router = False
         self.nruns = 0
@@ -233,7 +236,8 @@ class Workspace(object):
         return out
 
     # -- databases -----------------------------------------------------------
-    def db_path(self, alias='default'):
+    def db_path(self, alias=None):
+        alias = alias or self.main_alias
         return os.path.join(self.dbdir, '%s.sqlite3' % alias)
 
     def fork_db(self, tag):
@@ -280,10 +284,12 @@ class Workspace(object):
             'clock': self.clock_iso(),
             'trace': trace,
             'op': op,
-            'args': args or {},
+            'args': dict(args or {}),
             'fault': fault,
             'probes': probes or [],
         }
+        if op == 'evolve' and self.main_alias != 'default':
+            req['args'].setdefault('database', self.main_alias)
         if scope:
             req['scope'] = scope
         req.update(extra)
